@@ -106,12 +106,26 @@ struct Args {
     side_evidence: Option<String>,
 }
 
+/// Any string is a seed: integers (of any sign and size) are folded into 63 bits, anything else
+/// is hashed. The same input always gives the same seed, and nothing is silently ignored.
+fn parse_seed(text: &str) -> u64 {
+    let t = text.trim();
+    match t.parse::<i128>() {
+        Ok(v) => v.rem_euclid(1i128 << 63) as u64,
+        Err(_) => {
+            let mut h = prng::Fnv::default();
+            h.bytes(t.as_bytes());
+            h.0 & ((1u64 << 63) - 1)
+        }
+    }
+}
+
 fn parse_args() -> Result<Args, String> {
     let argv: Vec<String> = std::env::args().collect();
     if argv.len() < 2 {
         return Err("usage: ivpsim check|replay|fingerprints ...".into());
     }
-    let env_seed = std::env::var("VERIF_SEED").ok().and_then(|s| s.trim().parse::<u64>().ok());
+    let env_seed = std::env::var("VERIF_SEED").ok().filter(|s| !s.trim().is_empty()).map(|s| parse_seed(&s));
     let env_tier = std::env::var("VERIF_TIER").ok().filter(|t| t == "quick" || t == "thorough");
     let mut a = Args {
         cmd: argv[1].clone(),
@@ -136,7 +150,7 @@ fn parse_args() -> Result<Args, String> {
                 i += 1;
             }
             "--seed" => {
-                a.seed = need(i)?.parse().map_err(|_| "bad --seed")?;
+                a.seed = parse_seed(&need(i)?);
                 i += 1;
             }
             "--workers" => {
@@ -191,9 +205,9 @@ fn plan_for(tier: &str, lite: bool) -> Plan {
     if lite {
         // reduced pass, run with the debug-assertions build
         let mut ft = explore_f::FTier::quick();
-        ft.exhaustive_cap = if tier == "thorough" { 400 } else { 200 };
-        ft.ref_budget = 2_000;
-        ft.sample_k = 16;
+        ft.exhaustive_cap = if tier == "thorough" { 500 } else { 300 };
+        ft.ref_budget = 2_500;
+        ft.sample_k = 24;
         return Plan { thorough: false, ftier: ft, maxlen: 4, ins_extras: 1, swarm_runs: if tier == "thorough" { 60_000 } else { 15_000 } };
     }
     if tier == "thorough" {
@@ -207,7 +221,7 @@ fn plan_for(tier: &str, lite: bool) -> Plan {
 fn determinism_slice(seed: u64, workers: usize) -> (Vec<(stats::RunId, u64)>, u64) {
     let ft = explore_f::FTier::quick();
     let groups = explore_f::groups(&ft);
-    let picked: Vec<usize> = (0..groups.len()).filter(|g| g % 23 == 3).collect();
+    let picked: Vec<usize> = (0..groups.len()).filter(|g| g % 41 == 3).collect();
     let (s1, _) = par(picked.len(), workers, true, |i, st, _errs| {
         let gi = picked[i];
         let _ = explore_f::run_group(seed, gi as u64, &groups[gi], &ft, st);
@@ -229,6 +243,7 @@ fn determinism_slice(seed: u64, workers: usize) -> (Vec<(stats::RunId, u64)>, u6
 }
 
 fn cmd_fingerprints(a: &Args) -> i32 {
+    start_watchdog(a);
     let (all, digest) = determinism_slice(a.seed, a.workers);
     println!("runs={} digest={:016x}", all.len(), digest);
     if a.file.as_deref() == Some("dump") {
@@ -239,7 +254,10 @@ fn cmd_fingerprints(a: &Args) -> i32 {
     0
 }
 
-fn load_known(path: &Option<String>) -> Result<Vec<(String, String)>, String> {
+/// Known findings: (signature, what, minimised run as compact JSON). An entry identifies one
+/// specific failing history (the minimised run the check prints for it); another violation of the
+/// same class on the same solver is not covered by it.
+fn load_known(path: &Option<String>) -> Result<Vec<(String, String, String)>, String> {
     let p = match path {
         Some(p) => p,
         None => return Ok(Vec::new()),
@@ -255,8 +273,12 @@ fn load_known(path: &Option<String>) -> Result<Vec<(String, String)>, String> {
             if f.get("property").and_then(|x| x.as_str()) == Some("C06") {
                 let sig = f.get("signature").and_then(|x| x.as_str()).unwrap_or("").to_string();
                 let what = f.get("what").and_then(|x| x.as_str()).unwrap_or("").to_string();
+                let run = match f.get("run") {
+                    Some(r) => spec::RunSpec::from_json(r).map_err(|e| format!("{}: finding {}: bad run: {}", p, sig, e))?.to_json().to_string_compact(),
+                    None => return Err(format!("{}: finding {} has no \"run\" (the minimised run that identifies it)", p, sig)),
+                };
                 if !sig.is_empty() {
-                    out.push((sig, what));
+                    out.push((sig, what, run));
                 }
             }
         }
@@ -352,15 +374,20 @@ fn cmd_replay(a: &Args) -> i32 {
         }
     };
     let want = j.get("class").and_then(|x| x.as_str()).unwrap_or("").to_string();
+    let had_fired = j.get("fault_had_fired").and_then(|x| x.as_bool());
     // a replay of a run that does not terminate must itself terminate
     {
         let path2 = path.clone();
         let want2 = want.clone();
         std::thread::spawn(move || {
-            std::thread::sleep(std::time::Duration::from_millis(if want2 == "no-termination" { 30_000 } else { WATCHDOG_LIMIT_MS }));
+            std::thread::sleep(std::time::Duration::from_millis(if want2 == "no-termination" { 20_000 } else { WATCHDOG_LIMIT_MS }));
+            if want2 == "no-termination" && had_fired == Some(false) {
+                println!("the run did not return; no fault had fired in it, which C06 does not speak about (recorded as a harness error, not as a violation)");
+                std::process::exit(2);
+            }
             println!("REPRODUCED class=no-termination instance=0: the run did not return");
             println!("VIOLATION property=C06 replay={}", path2);
-            std::process::exit(if want2 == "no-termination" || want2.is_empty() { 1 } else { 3 });
+            std::process::exit(1);
         });
     }
     let res = run::execute(&spec, &budgets, &run::ExecOpts { record: true, keep_tail: 60, rec_polls: false, check_isolation: true, rec_items: false });
@@ -381,8 +408,10 @@ fn cmd_replay(a: &Args) -> i32 {
             1
         }
         Some(v) => {
-            println!("DIFFERENT class={} (file says {}) instance={}: {}", v.class, want, v.inst, v.detail);
-            3
+            // still a violation of C06 by the same run; the class is part of the message only
+            println!("REPRODUCED with a different class={} (file says {}) instance={}: {}", v.class, want, v.inst, v.detail);
+            println!("VIOLATION property=C06 replay={}", path);
+            1
         }
         None => {
             println!("NOT REPRODUCED: the run in this file violates nothing on the current tree");
@@ -392,44 +421,82 @@ fn cmd_replay(a: &Args) -> i32 {
 }
 
 /// A run that has not returned after this long is not going to (the longest legitimate run takes
-/// well under a second; the budgets of the stub bound everything that calls the derivative).
-const WATCHDOG_LIMIT_MS: u64 = 240_000;
+/// well under a second even on a loaded machine; the budgets of the stub bound everything that
+/// calls the derivative).
+const WATCHDOG_LIMIT_MS: u64 = 45_000;
+
+/// Before the process is ended because of a run that does not return: report the violations
+/// the workers have found so far (not minimised), so that the exit code cannot hide them.
+fn flush_pending(replays: &str, seed: u64) -> usize {
+    let pending: Vec<(String, String)> = run::watch::PENDING.lock().map(|g| g.clone()).unwrap_or_default();
+    let _ = std::fs::create_dir_all(replays);
+    let mut n = 0;
+    for (i, (sig, doc)) in pending.iter().enumerate() {
+        let path = format!("{}/C06-{}-unminimised-{}-{}.json", replays.trim_end_matches('/'), seed, i, sig.replace(':', "-"));
+        if std::fs::write(&path, doc).is_ok() {
+            println!("violation signature={} (found before a run that does not return ended the exploration; not minimised)", sig);
+            println!("VIOLATION property=C06 replay={}", path);
+            n += 1;
+        }
+    }
+    n
+}
 
 fn start_watchdog(a: &Args) {
     let replays = a.replays.clone();
     let seed = a.seed;
     let tier = a.tier.clone();
-    std::thread::spawn(move || loop {
-        std::thread::sleep(std::time::Duration::from_millis(2_000));
-        let now = run::watch::now_ms();
-        for slot in run::watch::slots().iter() {
-            let st = slot.started_ms.load(std::sync::atomic::Ordering::Acquire);
-            if st != 0 && now.saturating_sub(st) > WATCHDOG_LIMIT_MS {
-                let fired = slot.fired.load(std::sync::atomic::Ordering::Relaxed);
-                let taken = slot.spec.lock().ok().and_then(|g| g.clone());
-                if let Some((spec, budgets)) = taken {
-                    let _ = std::fs::create_dir_all(&replays);
-                    let path = format!("{}/C06-{}-no-termination-{}.json", replays.trim_end_matches('/'), seed, st);
-                    let j = J::obj(vec![
-                        ("property", J::s("C06")),
-                        ("class", J::s("no-termination")),
-                        ("detail", J::s("this run did not return: some call into the crate loops without calling the derivative")),
-                        ("seed", J::U(seed)),
-                        ("tier", J::S(tier.clone())),
-                        ("found_with_build", J::s(if cfg!(debug_assertions) { "dbgassert" } else { "release" })),
-                        ("fault_had_fired", J::Bool(fired)),
-                        ("spec", spec.to_json()),
-                        ("budgets", run::budgets_to_json(&budgets)),
-                    ]);
-                    let _ = std::fs::write(&path, j.to_string_pretty());
-                    if fired {
-                        println!("violation class=no-termination : after the derivative had returned Err, a call into the solver did not return within {} s", WATCHDOG_LIMIT_MS / 1000);
-                        println!("  run: {}", spec.to_json().to_string_compact());
-                        println!("VIOLATION property=C06 replay={}", path);
-                        std::process::exit(1);
-                    } else {
-                        eprintln!("HARNESS-ERROR: a run in which no fault had fired did not return within {} s (outside C06; the exploration cannot continue); run written to {}", WATCHDOG_LIMIT_MS / 1000, path);
-                        std::process::exit(2);
+    std::thread::spawn(move || {
+        let mut last_beat: Vec<(u64, u64)> = vec![(0, 0); run::watch::SLOTS];
+        loop {
+            std::thread::sleep(std::time::Duration::from_millis(1_000));
+            let now = run::watch::now_ms();
+            for (si, slot) in run::watch::slots().iter().enumerate() {
+                // the builder fast path: no run to time, a progress counter instead
+                if slot.in_fast.load(std::sync::atomic::Ordering::Acquire) && slot.started_ms.load(std::sync::atomic::Ordering::Acquire) == 0 {
+                    let b = slot.beat.load(std::sync::atomic::Ordering::Relaxed);
+                    if last_beat[si].0 != b {
+                        last_beat[si] = (b, now);
+                    } else if now.saturating_sub(last_beat[si].1) > WATCHDOG_LIMIT_MS {
+                        let n = flush_pending(&replays, seed);
+                        eprintln!(
+                            "HARNESS-ERROR: the builder enumeration made no progress for {} s: a builder call (constructor, setter or solve) does not return; the chain cannot be identified from outside the worker",
+                            WATCHDOG_LIMIT_MS / 1000
+                        );
+                        std::process::exit(if n > 0 { 1 } else { 2 });
+                    }
+                    continue;
+                }
+                last_beat[si].1 = now;
+                let st = slot.started_ms.load(std::sync::atomic::Ordering::Acquire);
+                if st != 0 && now.saturating_sub(st) > WATCHDOG_LIMIT_MS {
+                    let fired = slot.fired.load(std::sync::atomic::Ordering::Relaxed);
+                    let taken = slot.spec.lock().ok().and_then(|g| g.clone());
+                    if let Some((spec, budgets)) = taken {
+                        let _ = std::fs::create_dir_all(&replays);
+                        let path = format!("{}/C06-{}-no-termination-{}.json", replays.trim_end_matches('/'), seed, st);
+                        let j = J::obj(vec![
+                            ("property", J::s("C06")),
+                            ("class", J::s("no-termination")),
+                            ("detail", J::s("this run did not return: some call into the crate loops without calling the derivative")),
+                            ("seed", J::U(seed)),
+                            ("tier", J::S(tier.clone())),
+                            ("found_with_build", J::s(if cfg!(debug_assertions) { "dbgassert" } else { "release" })),
+                            ("fault_had_fired", J::Bool(fired)),
+                            ("spec", spec.to_json()),
+                            ("budgets", run::budgets_to_json(&budgets)),
+                        ]);
+                        let _ = std::fs::write(&path, j.to_string_pretty());
+                        let n = flush_pending(&replays, seed);
+                        if fired {
+                            println!("violation class=no-termination : after the derivative of the instance being driven had returned Err, a call into the solver did not return within {} s", WATCHDOG_LIMIT_MS / 1000);
+                            println!("  run: {}", spec.to_json().to_string_compact());
+                            println!("VIOLATION property=C06 replay={}", path);
+                            std::process::exit(1);
+                        } else {
+                            eprintln!("HARNESS-ERROR: a run did not return within {} s although no fault had fired in the instance being driven (a solve that does not terminate is outside C06; the exploration cannot continue); run written to {}", WATCHDOG_LIMIT_MS / 1000, path);
+                            std::process::exit(if n > 0 { 1 } else { 2 });
+                        }
                     }
                 }
             }
@@ -475,7 +542,7 @@ fn cmd_check(a: &Args) -> i32 {
             Some(v) => {
                 gate_failed = true;
                 println!("hermeticity gate: FAILED ({})", v.class);
-                total.violations.push(FoundViolation { id: (stats::MODE_GATE, 0, 0), spec, budgets, violation: v });
+                total.found(FoundViolation { id: (stats::MODE_GATE, 0, 0), spec, budgets, violation: v });
             }
             None => println!("hermeticity gate: {} instances in one sequential run (probe set, failing/abandoned/rejected workload, probe set again): identical histories", res.insts.len()),
         }
@@ -509,7 +576,7 @@ fn cmd_check(a: &Args) -> i32 {
         let units = explore_b::bexh_units(alphabet.len());
         let t = std::time::Instant::now();
         let (st, errs) = par(units.len(), workers, false, |i, st, errs| {
-            explore_b::run_bexh_unit(stats::MODE_BEXH, i as u64, &units[i], &alphabet, plan.maxlen, st, errs);
+            explore_b::run_bexh_unit(stats::MODE_BEXH, i as u64, &units[i], &alphabet, plan.maxlen, plan.maxlen - 1, st, errs);
         });
         println!(
             "builder chains (<= {} calls, exhaustive): {} chains, {} builder calls, {} rejected, {} built, {} hook reads ({} clamped), {:.1}s",
@@ -525,7 +592,7 @@ fn cmd_check(a: &Args) -> i32 {
             let t = std::time::Instant::now();
             let before = total.chains;
             let (st, errs) = par(units.len(), workers, false, |i, st, errs| {
-                explore_b::run_bexh_unit(stats::MODE_BSUB, (si as u64 + 1) * 1_000_000 + i as u64, &units[i], &sub, depth, st, errs);
+                explore_b::run_bexh_unit(stats::MODE_BSUB, (si as u64 + 1) * 1_000_000 + i as u64, &units[i], &sub, depth, depth - 1, st, errs);
             });
             total.merge(st);
             harness.extend(errs);
@@ -577,9 +644,9 @@ fn cmd_check(a: &Args) -> i32 {
         let mut groups = explore_f::groups(&plan.ftier);
         groups.extend(explore_b::bperm_f_groups());
         if lite {
-            // every fifth group of the grid (the grid's axes have no period 5, so every solver,
+            // every third group of the grid (the grid's axes have no period 3 in common, so every solver,
             // problem, parameter set, dimension mode and field still occurs)
-            groups = groups.into_iter().enumerate().filter(|(i, _)| i % 5 == 2).map(|(_, g)| g).collect();
+            groups = groups.into_iter().enumerate().filter(|(i, _)| i % 3 == 2).map(|(_, g)| g).collect();
         }
         f_groups = groups.len() as u64;
         let t = std::time::Instant::now();
@@ -631,7 +698,8 @@ fn cmd_check(a: &Args) -> i32 {
             _ => minimise::minimise(&fv.spec, &fv.budgets, &fv.violation),
         };
         let msig = FoundViolation { id: fv.id, spec: m.spec.clone(), budgets: m.budgets.clone(), violation: m.violation.clone() }.signature();
-        if let Some((_, what)) = known.iter().find(|(s, _)| *s == msig || s == sig) {
+        let mrun = m.spec.to_json().to_string_compact();
+        if let Some((_, what, _)) = known.iter().find(|(s, _, r)| *s == msig && *r == mrun) {
             println!("KNOWN-FINDING: property=C06 {} ({})", what, msig);
             known_matched += 1;
             continue;
